@@ -106,7 +106,7 @@ class Folder:
         self.trace = []
         self.steps = 0  # the step budget is per probing session
 
-    def one_sided(self, ignore: Tuple[str, ...] = ()) -> List[Tuple[str, ast.AST]]:
+    def one_sided(self, ignore: Tuple[str, ...] = (), ignore_tests: Tuple[str, ...] = ()) -> List[Tuple[str, ast.AST]]:
         """tests decided the same way on every probe of the trace whose other outcome is not a refusal: the probes do not show what the
         code does on that outcome, so a decision by folding would be a sample, not a proof"""
         tr, self.trace = self.trace or [], None
@@ -118,6 +118,8 @@ class Folder:
             return bool(arm) and isinstance(arm[-1], ast.Raise)
         out = []
         for fn, test, parent, outs in seen.values():
+            if ignore_tests and norm(test).startswith(ignore_tests):
+                continue
             if None in outs and not any(fr.endswith(i) or fr.startswith("errors:") for fr in fn.split(" > ") for i in tuple(ignore) + ("\0",)):
                 out.append((fn, test))
                 continue
@@ -229,7 +231,7 @@ class Folder:
             if e.id in ("True", "False", "None"):
                 return {"True": True, "False": False, "None": None}[e.id]
             if e.id in ("str", "int", "bool", "bytes", "list", "dict", "float", "set", "frozenset", "tuple", "len",
-                        "isinstance", "getattr", "all", "any", "super", "sorted", "hasattr", "next", "reversed", "min", "max", "sum", "enumerate", "zip"):
+                        "isinstance", "getattr", "all", "any", "super", "sorted", "hasattr", "callable", "next", "reversed", "min", "max", "sum", "enumerate", "zip"):
                 return ("builtin", e.id)
             return self.module_value(m, e.id)
         if isinstance(e, ast.Attribute):
@@ -544,6 +546,15 @@ class Folder:
                 return not is_unknown(self.get_attr(args[0], args[1]))
             if name == "isinstance" and len(args) == 2:
                 return self._isinstance(args[0], args[1])
+            if name == "callable" and len(args) == 1:
+                a0 = args[0]
+                if isinstance(a0, (FuncVal, ClassVal)) or (isinstance(a0, tuple) and a0 and a0[0] in ("builtin", "bound-builtin")):
+                    return True
+                if isinstance(a0, Inst):
+                    return a0.cls.lookup("__call__") is not None
+                if isinstance(a0, (str, bytes, int, float, bool, list, dict, set, type(None))) and not is_unknown(a0):
+                    return False
+                return Unknown("callable")
             if any(is_unknown(a) for a in args):
                 return Unknown(name)
             if name in ("str", "int", "bool", "bytes", "float") and any(isinstance(a, ExtVal) for a in args):
